@@ -81,7 +81,9 @@ def build_world(modules=None):
         o = getattr(exc, n)
         if isinstance(o, type) and issubclass(o, BaseException):
             w.add_class(o)
-    for o in (mllp.UnsupportedMessageType, mllp.InvalidHL7Message, Exception, ValueError, KeyError, IndexError,
+    class DynamicException(Exception):
+        """pseudo-class of `raise <dynamically typed value>` (see pyvc/stmt.py: st_Raise)"""
+    for o in (DynamicException, mllp.UnsupportedMessageType, mllp.InvalidHL7Message, Exception, ValueError, KeyError, IndexError,
               TypeError, AttributeError, AssertionError, NotImplementedError, UnicodeDecodeError):
         w.add_class(o)
     for k, t in SCHEMA.items():
